@@ -334,11 +334,7 @@ func (datasetSink *datasetSink) endFullSync(ctx context.Context, runner *Runner)
 	}
 	// The sync this job started carries no id. If a client's full sync (which does) has replaced it, or the
 	// sync state is gone altogether, completing would delete whatever that other sync has not seen yet
-	if !dataset.FullSyncStarted() || dataset.FullSyncID() != "" {
-		return fmt.Errorf("the full sync of dataset %v started by this job has been superseded, not completing it",
-			datasetSink.DatasetName)
-	}
-	err := dataset.CompleteFullSync(ctx)
+	err := dataset.CompleteFullSyncWithID(ctx, "")
 	if err != nil {
 		return err
 	}
